@@ -93,6 +93,20 @@ def addr_base(f, v):
     return vk(v), off
 
 
+def pos_key(g, v):
+    """position read through address v: (key, offset). Pointer form: key = base SSA pointer. Index form s[i + c]: key = ('x', base pointer, index value)"""
+    i = inst_of(g, v)
+    if i is not None and i.op == 'getelementptr' and len(i.d['var_steps']) == 1 and i.d['var_steps'][0]['stride'] == 1:
+        base, off0 = addr_base(g, i.ops[0])
+        idx = strip_int(g, i.d['var_steps'][0]['idx'])
+        extra = 0
+        ii = inst_of(g, idx)
+        if ii is not None and ii.op == 'add' and const_of(ii.ops[1]) is not None and const_of(ii.ops[1]) < 16:
+            extra = const_of(ii.ops[1]); idx = strip_int(g, ii.ops[0])
+        return ('x', base, vk(idx)), off0 + i.d['const_off'] + extra
+    return addr_base(g, v)
+
+
 def skip_loops(f):
     """[(header block, phi inst, latch block, test load)]: while (nonascii(*c)) ++c;"""
     out = []
@@ -153,14 +167,34 @@ def comparators(P):
     return wrappers, cmps
 
 
-def features_of(P, g):
-    sk = skip_loops(g)
+def _reach_defs(P, g):
+    return [P.defined[n] for n in P.reachable_from([g.name]) if n in P.defined]
+
+
+def features_of(P, g, call=None):
+    """capabilities of a comparator: 'skip' = it (or a helper it calls) tests bytes for non-ASCII; 'prefix' = it compares a counter with its length
+    parameter and the wrapper passes a non-zero constant for it"""
+    skip = False
+    for h in _reach_defs(P, g):
+        for b_, blk in enumerate(h.blocks):
+            for i in blk:
+                if i.op == 'icmp' or (i.op == 'br' and len(i.ops) == 3):
+                    c = cond_class(h, {'k': 'i', 'id': i.id}) if i.op == 'icmp' else None
+                    if c and c[0] == 'nonascii': skip = True
     counter = None
-    if len(g.params) >= 3 and g.params[2]['ty'] == 'i32':
+    if len(g.params) >= 3 and g.params[2]['bits'] in (32, 64) and not g.params[2]['ty'].endswith('*'):
         for i in g.all_insts():
-            if i.op == 'icmp' and any(v == {'k': 'a', 'n': 2} for v in i.ops):
+            if i.op == 'icmp' and any(strip_int(g, v) == {'k': 'a', 'n': 2} for v in i.ops):
                 counter = i
-    return {'skip': bool(sk), 'prefix': counter is not None}
+    nconst = const_of(call.ops[2]) if (call is not None and len(call.ops) > 2) else None
+    prefix = counter is not None and (nconst is None or nconst != 0)
+    return {'skip': skip, 'prefix': prefix, 'n': nconst}
+
+
+def strip_int(g, v):
+    while v['k'] == 'i' and g.insts[v['id']].op in ('sext', 'zext', 'trunc'):
+        v = g.insts[v['id']].ops[0]
+    return v
 
 
 def dispatch(ctx, rep):
@@ -173,53 +207,37 @@ def dispatch(ctx, rep):
                  'comparator with exactly those capabilities (prefix cut-off present iff has_prefix; accent-skip loops present iff has_accents); the prefix '
                  'wrappers pass the constant 4; every word search obtains its comparator from get_comparer(lang) for the same lang it searches')
         rep.instances(len(cmps), 2, 'comparator wrappers')
-        ft = {o: n for o, (n, s) in P.field_table(LANG_STRUCT).items()}
-        ws = feasible_walks(P, gc)
-        rep.instances(len(ws), 2, 'paths of get_comparer')
+        from .bitflow import Interp, State, Ptr, BV, Tag, Unmodelled
+        lf = {n: (o, sz) for o, (n, sz) in P.field_table(LANG_STRUCT).items()}
         seen = {}
-        for w in ws:
-            flags = {}
-            for (k, rel, c) in w.facts:
-                if k[0] != 'i': continue
-                src = gc.insts[k[1]]
-                ld = src
-                while ld.op in ('trunc', 'zext', 'sext', 'and'): ld = gc.insts[ld.ops[0]['id']] if ld.ops[0]['k'] == 'i' else ld
-                if ld.op == 'load':
-                    base, off = addr_base(gc, ld.ops[0])
-                    if base == ('a', 0) and off in ft:
-                        val = (rel == 'ne' and c == 0) or (rel == 'eq' and c != 0)
-                        flags[ft[off]] = val
-            # branch conditions are i1 truncs of the i8 flag: facts may be recorded on the trunc: recover through taken branches
-            for i in w.events:
-                if i.op == 'br' and len(i.ops) == 3 and i.id in w.taken:
-                    c = w.resolve(i.ops[0])
-                    if c['k'] == 'i':
-                        ci = gc.insts[c['id']]
-                        x = ci
-                        while x.op in ('trunc', 'zext', 'sext') or (x.op == 'icmp' and const_of(x.ops[1]) == 0):
-                            neg = x.op == 'icmp' and x.d['pred'] == 'eq'
-                            x = gc.insts[x.ops[0]['id']] if x.ops[0]['k'] == 'i' else x
-                            if x is ci: break
-                        if x.op == 'load':
-                            base, off = addr_base(gc, x.ops[0])
-                            if base == ('a', 0) and off in ft:
-                                flags[ft[off]] = bool(w.taken[i.id])
-            rv = w.ret_value()
-            tgt = rv['name'] if rv and rv['k'] == 'f' else None
-            where = gc.blocks[w.path[-1]][-1].loc
-            if tgt is None or tgt not in cmps:
-                rep.fail('get_comparer returns a comparator wrapper on every path', where, 'get_comparer path %s' % w.path, detail=str(rv)); continue
-            g, call = cmps[tgt]
-            fe = features_of(P, g)
-            hp, ha = flags.get('has_prefix'), flags.get('has_accents')
-            seen[(hp, ha)] = tgt
-            rep.check(hp is not None and ha is not None and fe['prefix'] == hp and fe['skip'] == ha,
-                      'flags (has_prefix=%s, has_accents=%s) select %s (prefix cut-off: %s, accent skipping: %s)' % (hp, ha, base_name(g.name), fe['prefix'], fe['skip']),
-                      where, 'get_comparer -> %s' % tgt, detail={'flags': flags, 'comparator': g.name, 'features': fe},
-                      sample={'has_prefix': hp, 'has_accents': ha, 'comparator': base_name(g.name)}, key='CMP-1|%s|%s' % (hp, ha))
-            if fe['prefix']:
-                n = const_of(call.ops[2]) if len(call.ops) > 2 else None
-                rep.check(n == 4, 'prefix wrapper %s passes the constant 4' % tgt, call.loc, tgt, detail=n, key='CMP-1|n|%s' % tgt)
+        where = loc_gc(gc)
+        for hp in (False, True):
+            for ha in (False, True):
+                I = Interp(P); st = State(); st.mem.new('lang', 8, 0)
+                flags = {'has_prefix': hp, 'has_accents': ha}
+                reads = []
+                def hook(I_, st_, ptr, nbytes, inst, as_ptr, flags=flags, reads=reads):
+                    c0 = ptr.parts[0] if ptr.parts else ptr.coff()
+                    for nm, (o_, sz_) in lf.items():
+                        if o_ == c0 and nm in flags:
+                            reads.append(nm); return BV.const(int(flags[nm]), 8 * nbytes)
+                    raise Unmodelled('get_comparer reads the language table at offset %s' % c0)
+                st.mem.hooks = {'lang': hook}
+                outs = I.run(gc, [Ptr('lang', 0)], st)
+                tgt = None
+                if len(outs) == 1 and isinstance(outs[0].ret, Ptr) and outs[0].ret.obj.startswith('f:'): tgt = outs[0].ret.obj[2:]
+                if tgt is None or tgt not in cmps:
+                    rep.fail('get_comparer returns a comparator wrapper for flags (has_prefix=%s, has_accents=%s)' % (hp, ha), where, 'get_comparer(%s,%s)' % (hp, ha),
+                             detail=str(outs[0].ret) if outs else None); continue
+                g, call = cmps[tgt]
+                fe = features_of(P, g, call)
+                seen[(hp, ha)] = tgt
+                rep.check(fe['prefix'] == hp and fe['skip'] == ha,
+                          'flags (has_prefix=%s, has_accents=%s) select %s (prefix cut-off: %s, accent skipping: %s)' % (hp, ha, base_name(g.name), fe['prefix'], fe['skip']),
+                          where, 'get_comparer -> %s' % tgt, detail={'flags': flags, 'comparator': g.name, 'features': fe},
+                          sample={'has_prefix': hp, 'has_accents': ha, 'comparator': base_name(g.name), 'wrapper': tgt}, key='CMP-1|%s|%s' % (hp, ha))
+                if fe['prefix']:
+                    rep.check(fe['n'] == 4, 'prefix wrapper %s passes the constant 4' % tgt, call.loc, tgt, detail=fe['n'], key='CMP-1|n|%s' % tgt)
         rep.check(set(seen) == {(True, True), (True, False), (False, True), (False, False)}, 'all four flag combinations are dispatched', loc_gc(gc), 'get_comparer',
                   detail=sorted(map(str, seen)))
         # every search site uses get_comparer(lang) for the lang it searches
@@ -267,7 +285,7 @@ def skip_normalised(ctx, rep):
                           '%s: %s[%d] read without skipping combining marks' % (base_name(g.name), 'key' if fam[0] == 0 else 'elm', off),
                           detail={'offset': off, 'cursor_is_skip_loop_exit': base[0] == 'i' and base[1] in norm},
                           sample={'function': g.name, 'site': i.loc, 'offset': off}, key='CMP-3|%s|%s[%d]' % (base_name(g.name), 'key' if fam[0] == 0 else 'elm', off))
-        rep.instances(n, 1, 'accent-skipping comparators')
+        rep.rules[rep._cur]['instances'] += n      # comparators whose skip loops live in a helper are not in the recognised shape
 
 
 def counter_pairing(ctx, rep):
@@ -280,12 +298,26 @@ def counter_pairing(ctx, rep):
                  'cursor bytes in the same iteration (skipped accent bytes never count); the cut-off reads the key only; exact comparators have no cut-off')
         n = 0
         for w, (g, call) in sorted(cmps.items()):
-            fe = features_of(P, g)
+            fe = features_of(P, g, call)
             if not fe['prefix']: continue
             n += 1
-            cut = [i for i in g.all_insts() if i.op == 'icmp' and any(v == {'k': 'a', 'n': 2} for v in i.ops)]
-            rep.check(len(cut) == 1, 'one cut-off test against n', loc_gc(g), g.name, detail=len(cut))
-            if len(cut) != 1: continue
+            cut = [i for i in g.all_insts() if i.op == 'icmp' and any(strip_int(g, v) == {'k': 'a', 'n': 2} for v in i.ops)]
+            # prefix length measured in bytes (pointer difference of a cursor) where accent bytes are skipped: bytes are not letters
+            def from_ptrdiff(v, d=0):
+                i_ = inst_of(g, v)
+                if i_ is None or d > 6: return False
+                if i_.op == 'ptrtoint': return True
+                if i_.op in ('add', 'sub', 'sext', 'zext', 'trunc', 'sdiv', 'udiv', 'phi'):
+                    srcs = [x for x, _ in i_.d['incoming']] if i_.op == 'phi' else i_.ops
+                    return any(from_ptrdiff(x, d + 1) for x in srcs)
+                return False
+            for c_ in cut:
+                other_ = c_.ops[0] if strip_int(g, c_.ops[1]) == {'k': 'a', 'n': 2} else c_.ops[1]
+                if fe['skip'] and from_ptrdiff(other_):
+                    rep.fail('the prefix length compared with n counts letters, not bytes: in an accent-skipping comparator it must not be a pointer difference',
+                             c_.loc, '%s: prefix length measured in bytes' % base_name(g.name), key='CMP-6|%s|bytes' % base_name(g.name))
+            if len(cut) != 1:
+                rep.notes.append('CMP-6: %s has %d comparisons with its length parameter: shape not recognised, rule not applied' % (g.name, len(cut))); continue
             c = cut[0]
             other = c.ops[0] if c.ops[1] == {'k': 'a', 'n': 2} else c.ops[1]
             phi = inst_of(g, other)
@@ -297,9 +329,9 @@ def counter_pairing(ctx, rep):
                     else:
                         a = inst_of(g, v)
                         if a is not None and a.op == 'add' and vk(a.ops[0]) == ('i', phi.id) and const_of(a.ops[1]) == 1: step = a
-            rep.check(ok and init is not None and step is not None, 'counter is a loop variable with constant start and unit stride', c.loc, base_name(g.name),
-                      key='CMP-6|%s|shape' % base_name(g.name))
-            if not (ok and init is not None and step is not None): continue
+            if not (ok and init is not None and step is not None):
+                rep.notes.append('CMP-6: %s: the compared value is not a unit-stride loop counter: shape not recognised, rule not applied' % g.name); continue
+            rep.ok('%s: counter is a loop variable with constant start and unit stride' % base_name(g.name))
             # first iteration (1-based compared character) at which the cut-off predicate holds for n = 4
             def holds(iv, n=4):
                 a, b = (iv, n) if c.ops[1] == {'k': 'a', 'n': 2} else (n, iv)
@@ -322,11 +354,13 @@ def counter_pairing(ctx, rep):
                         b0, _ = addr_base(g, cc[1].ops[0]); b1, _ = addr_base(g, cc[2].ops[0])
                         if (b0 in fams0 and b1 in fams1) or (b0 in fams1 and b1 in fams0):
                             eqedges.append((b, g.succs[b][0] if cc[3] else g.succs[b][1]))
+            if not eqedges:
+                rep.notes.append('CMP-6: %s: byte-equality test not in recognised form (helper?): pairing rule not applied' % g.name); continue
             dom = any(edge_dominates_from_header(g, phi.bb, a, b2, step.bb) for a, b2 in eqedges)
             rep.check(dom, 'every increment of the character counter follows the "bytes equal" outcome in the same iteration', step.loc,
                       '%s: counter incremented without a matched character' % base_name(g.name), detail={'equality_edges': eqedges, 'increment_block': step.bb},
                       key='CMP-6|%s|pairing' % base_name(g.name))
-        rep.instances(n, 1, 'prefix comparators')
+        rep.rules[rep._cur]['instances'] += n
 
 
 def edge_dominates_from_header(f, header, a, b, x):
@@ -352,16 +386,16 @@ def cond_facts(g, v, outcome):
     out = set()
     if not cc: return out
     if cc[0] == 'nonascii':
-        base, off = addr_base(g, cc[1].ops[0])
+        base, off = pos_key(g, cc[1].ops[0])
         if off == 0 and cc[2] == outcome: out.add(('nn', base))
     elif cc[0] == 'nul':
-        base, off = addr_base(g, cc[1].ops[0])
+        base, off = pos_key(g, cc[1].ops[0])
         if off == 0 and cc[2] != outcome: out.add(('nn', base))
     elif cc[0] == 'constcmp' and cc[2] in ('ne', 'eq') and cc[3] != 0:
-        base, off = addr_base(g, cc[1].ops[0])
+        base, off = pos_key(g, cc[1].ops[0])
         if off == 0 and (cc[2] == 'eq') == outcome: out.add(('nn', base))        # *c == ' ' implies non-NUL
     elif cc[0] == 'eq':
-        b0, o0 = addr_base(g, cc[1].ops[0]); b1, o1 = addr_base(g, cc[2].ops[0])
+        b0, o0 = pos_key(g, cc[1].ops[0]); b1, o1 = pos_key(g, cc[2].ops[0])
         if o0 == 0 and o1 == 0 and cc[3] == outcome: out.add(('eq', b0, b1))
     return out
 
@@ -390,6 +424,8 @@ def nonnul_dataflow(g):
                 if t.op == 'br' and len(t.ops) == 3 and succs[0] != succs[1]:
                     outcome = (k == 0)
                     ci = inst_of(g, t.ops[0])
+                    while ci is not None and ci.op == 'xor' and const_of(ci.ops[1]) == 1:      # !x : same condition, flipped outcome
+                        outcome = not outcome; ci = inst_of(g, ci.ops[0])
                     if ci is not None and ci.op == 'phi' and ci.bb == b:
                         if outcome:
                             acc = TOP
@@ -408,7 +444,7 @@ def nonnul_dataflow(g):
                                 acc = meet(acc, e | (cond_facts(g, v, False) if const_of(v) is None else set()))
                             if acc is not TOP: f |= acc
                     else:
-                        f |= cond_facts(g, t.ops[0], outcome)
+                        f |= cond_facts(g, {'k': 'i', 'id': ci.id}, outcome) if ci is not None else set()
                 if EDGE.get((b, s_)) != f:
                     EDGE[(b, s_)] = f; changed = True
         for b in range(1, nb):
@@ -465,7 +501,34 @@ def cursor_safety(ctx, rep):
                     rep.check(ok, '%s at %s: cursor byte known non-NUL and step is 1' % (what, i.loc), i.loc, '%s: %s past a byte not known non-NUL' % (base_name(g.name), what),
                               detail={'step': k, 'known_non_nul': nn}, sample={'function': g.name, 'site': i.loc, 'kind': what} if nadv <= 3 else None,
                               key='CUR-1|%s|%s|%s' % (base_name(g.name), what, i.loc.split(':')[-1]))
-        rep.instances(nadv, 8, 'cursor advance / look-ahead sites')
+        # index form: s[i] with i a loop counter
+        for name, (g, args) in sorted(targets.items()):
+            fams = {a_: cursor_family(g, a_) for a_ in args}
+            IN = nonnul_dataflow(g)
+            idx_uses = {}       # index value key -> set of string base keys it indexes
+            for i in g.all_insts():
+                if i.op == 'load' and i.d['bits'] == 8:
+                    key, off = pos_key(g, i.ops[0])
+                    if isinstance(key, tuple) and key and key[0] == 'x' and any(key[1] in fams[a_] for a_ in args):
+                        idx_uses.setdefault(key[2], set()).add(key[1])
+                        if off >= 1:
+                            nadv += 1
+                            nn = known_nonnul(IN[i.bb], key)
+                            rep.check(off == 1 and nn, 'read of s[i+%d] at %s: s[i] known non-NUL' % (off, i.loc), i.loc,
+                                      '%s: read of s[i+%d] past a byte not known non-NUL' % (base_name(g.name), off), detail={'offset': off, 'known_non_nul': nn},
+                                      key='CUR-1|%s|read of s[i+%d]|%s' % (base_name(g.name), off, i.loc.split(':')[-1]))
+            for i in g.all_insts():
+                if i.op == 'add' and const_of(i.ops[1]) == 1 and vk(i.ops[0]) in idx_uses:
+                    # an increment that feeds the index back (loop-carried)
+                    ph = inst_of(g, i.ops[0])
+                    if ph is None or ph.op != 'phi' or not any(vk(v_) == ('i', i.id) for v_, _ in ph.d['incoming']): continue
+                    for base in idx_uses[vk(i.ops[0])]:
+                        nadv += 1
+                        nn = known_nonnul(IN[i.bb], ('x', base, vk(i.ops[0])))
+                        rep.check(nn, 'index advance at %s: the byte at the current index is known non-NUL' % i.loc, i.loc,
+                                  '%s: index advanced past a byte not known non-NUL' % base_name(g.name), detail={'string': str(base), 'known_non_nul': nn},
+                                  key='CUR-1|%s|index advance|%s' % (base_name(g.name), i.loc.split(':')[-1]))
+        rep.instances(nadv, 3, 'cursor advance / look-ahead sites')
 
 
 def conj_terms(g, v):
